@@ -759,26 +759,29 @@ func c14r2(c *Check) {
 		name string
 		nd   need
 	}{{"periodFlush", needPos}, {"periodReConn", needPos}, {"ioBufSize", needPos}, {"connBufSize", needNonNeg}} {
-		var p *ssa.Parameter
-		for _, x := range dn.Params {
-			if x.Name() == par.name {
-				p = x
-			}
-		}
-		if p == nil {
-			anchorFail("destination.New: parameter %s not found", par.name)
-		}
-		// the store of p into its field must be guarded
-		okG := false
+		// the value stored into the Destination field of that name (a parameter of New, or a field of the
+		// configuration struct New receives) must be guarded at the store
+		fld := c.P.Field("destination", "Destination", par.name)
+		nSt, nOK := 0, 0
 		allInstrs(dn, func(in ssa.Instruction) {
-			if st, ok := in.(*ssa.Store); ok && st.Val == p {
-				if _, g := guardedAt(dn, st, p, par.nd); g {
-					okG = true
-				} else if _, g := validatedByHelper(dn, st, p, par.nd, 0); g {
-					okG = true
-				}
+			st, ok := in.(*ssa.Store)
+			if !ok {
+				return
+			}
+			if fa, ok := st.Addr.(*ssa.FieldAddr); !ok || fieldOfAddr(fa) != fld {
+				return
+			}
+			nSt++
+			if _, g := guardedAt(dn, st, st.Val, par.nd); g {
+				nOK++
+			} else if _, g := validatedByHelper(dn, st, st.Val, par.nd, 0); g {
+				nOK++
 			}
 		})
+		okG := nSt > 0 && nOK == nSt
+		if nSt == 0 {
+			anchorFail("destination.New: no store into Destination.%s", par.name)
+		}
 		c.Judge(okG, "destination.New validates "+par.name+" "+par.nd.String(), c.AtFn(dn), "rejecting comparison dominates the construction", "destination.New no longer rejects a "+par.name+" that makes the destination's goroutines panic later (time.NewTicker / NewWriter / make(chan))")
 	}
 	// getSchemas requires a default pattern
@@ -896,37 +899,47 @@ func c14r2(c *Check) {
 	c.Judge(okAge, "table.NewTableConfig validates the bad-metrics max age", c.AtFn(ntc), "a rejecting comparison on the parsed duration dominates the successful return", "NewTableConfig accepts a bad_metrics_max_age for which time.NewTicker(maxAge/10) panics")
 	// spool settings: validated under `if spool`, and NewSpool only under dest.Spool
 	okSync, okSBuf := false, false
-	for _, par := range dn.Params {
-		switch par.Name() {
-		case "spoolSyncPeriod", "spoolBufSize":
-			nd := needPos
-			if par.Name() == "spoolBufSize" {
-				nd = needNonNeg
+	for _, sp := range []struct {
+		field string
+		nd    need
+	}{{"SpoolSyncPeriod", needPos}, {"SpoolBufSize", needNonNeg}} {
+		// the constructor input that ends up in the Destination field of that name
+		fld := c.P.Field("destination", "Destination", sp.field)
+		ok := false
+		allInstrs(dn, func(in ssa.Instruction) {
+			st, isSt := in.(*ssa.Store)
+			if !isSt {
+				return
 			}
-			ok := rejectingComparison(dn, par, nd)
-			if !ok {
-				// the comparison may live in a validating helper whose error New hands on
-				allInstrs(dn, func(in ssa.Instruction) {
-					call, isCall := in.(*ssa.Call)
-					if !isCall {
-						return
-					}
-					g := call.Call.StaticCallee()
-					if g == nil || g.Blocks == nil || !ModuleFunc(g) {
-						return
-					}
-					for ai, a := range call.Call.Args {
-						if a == ssa.Value(par) && ai < len(g.Params) && rejectingComparison(g, g.Params[ai], nd) {
-							ok = true
-						}
-					}
-				})
+			if fa, isFA := st.Addr.(*ssa.FieldAddr); !isFA || fieldOfAddr(fa) != fld {
+				return
 			}
-			if par.Name() == "spoolSyncPeriod" {
-				okSync = ok
-			} else {
-				okSBuf = ok
+			v := st.Val
+			if rejectingComparison(dn, v, sp.nd) {
+				ok = true
+				return
 			}
+			// the comparison may live in a validating helper whose error New hands on
+			allInstrs(dn, func(in2 ssa.Instruction) {
+				call, isCall := in2.(*ssa.Call)
+				if !isCall {
+					return
+				}
+				g := call.Call.StaticCallee()
+				if g == nil || g.Blocks == nil || !ModuleFunc(g) {
+					return
+				}
+				for ai, a := range call.Call.Args {
+					if (a == v || relatedTo(a, v, 0)) && ai < len(g.Params) && rejectingComparison(g, g.Params[ai], sp.nd) {
+						ok = true
+					}
+				}
+			})
+		})
+		if sp.field == "SpoolSyncPeriod" {
+			okSync = ok
+		} else {
+			okSBuf = ok
 		}
 	}
 	run := c.P.Func("destination", "*Destination", "Run")
@@ -1183,7 +1196,7 @@ func evalRel(op token.Token, a, b int64) (bool, bool) {
 
 // rejectingComparison: fn compares par with a constant and the edge on which nd does NOT hold
 // returns a non-nil error.
-func rejectingComparison(fn *ssa.Function, par *ssa.Parameter, nd need) bool {
+func rejectingComparison(fn *ssa.Function, par ssa.Value, nd need) bool {
 	for _, b := range fn.Blocks {
 		ifi, ok := b.Instrs[len(b.Instrs)-1].(*ssa.If)
 		if !ok {
@@ -1191,7 +1204,7 @@ func rejectingComparison(fn *ssa.Function, par *ssa.Parameter, nd need) bool {
 		}
 		cond, neg := negStrip(ifi.Cond)
 		bo, ok := cond.(*ssa.BinOp)
-		if !ok || bo.X != ssa.Value(par) {
+		if !ok || (bo.X != par && !sameLoc(bo.X, par)) {
 			continue
 		}
 		k, ok := constInt(bo.Y)
